@@ -407,6 +407,21 @@ pub fn c01_c02_c18() -> Result<u64, String> {
 pub fn c03_c11_c20() -> Result<u64, String> {
     let mut r = Rng::new(seed() ^ 3);
     let mut n = 0u64;
+    // C03: lookup in a single directory finds the entry whose run covers the id, and no other
+    for round in 0..200 {
+        let es = gen_dir(&mut r, 1 + (round % 9), round % 4 == 0);
+        let mut ents = to_entries(&es);
+        if round % 3 == 0 { let k = r.below(ents.len() as u64 + 1) as usize; let id = if k < ents.len() { ents[k].tile_id } else { ents.last().map(|e| e.tile_id.saturating_add(e.run_length as u64)).unwrap_or(0) }; ents.insert(k, Entry { tile_id: id, offset: 5, length: 9, run_length: 0 }); }
+        let d = Directory::from(ents.clone());
+        let mut probes = vec![0u64, u64::MAX];
+        for e in &ents { let end = e.tile_id.saturating_add(e.run_length as u64); probes.extend([e.tile_id, e.tile_id.saturating_sub(1), end, end.saturating_sub(1), end.saturating_add(1)]); }
+        for id in probes { n += 1;
+            let want = ents.iter().find(|e| e.run_length != 0 && e.tile_id <= id && id < e.tile_id.saturating_add(e.run_length as u64));
+            let got = d.find_entry_for_tile_id(id);
+            let same = match (want, got) { (None, None) => true, (Some(a), Some(b)) => a.tile_id == b.tile_id && a.offset == b.offset && a.length == b.length && a.run_length == b.run_length, _ => false };
+            if !same { return Err(format!("find_entry_for_tile_id({id}) in directory {:?} = {:?}, expected {:?}", es, got.map(|e| (e.tile_id, e.run_length)), want.map(|e| (e.tile_id, e.run_length)))); }
+        }
+    }
     for round in 0..120 {
         let tiles = gen_tiles(&mut r, [1, 2, 4, 9, 25, 60][round % 6], 1 + (round % 5) as u64);
         let ic = 1 + (round % 4) as u8;
